@@ -51,11 +51,16 @@ pub struct Stats {
     pub unexplored_jobs: u64,
     pub digests: HashSet<u64>,
     pub digests_interleaved: HashSet<u64>,
+    pub violating_executions: u64,
+    pub violations: Vec<Violation>,
 }
 
 impl Stats {
     fn add(&mut self, o: &Outcome, prefix_len: usize) {
         self.executions += 1;
+        if o.violation.is_some() {
+            record_violation(o, self);
+        }
         self.states += (o.decisions.len().saturating_sub(prefix_len)) as u64 + if prefix_len == 0 { 1 } else { 0 };
         self.transitions += o.steps;
         self.switches += o.switches;
@@ -83,6 +88,8 @@ impl Stats {
         self.max_decisions = self.max_decisions.max(o.max_decisions);
         self.capped |= o.capped;
         self.unexplored_jobs += o.unexplored_jobs;
+        self.violating_executions += o.violating_executions;
+        self.violations.extend(o.violations.iter().cloned());
         self.digests.extend(o.digests.iter().copied());
         self.digests_interleaved.extend(o.digests_interleaved.iter().copied());
     }
@@ -92,6 +99,8 @@ impl Stats {
             "interleaved": self.interleaved, "switches": self.switches, "signals": self.signals,
             "stale": self.stale, "max_decisions": self.max_decisions, "capped": self.capped,
             "unexplored_jobs": self.unexplored_jobs,
+            "violating_executions": self.violating_executions,
+            "violations": self.violations.iter().map(|v| json!({"message": v.message, "cost": v.cost, "choices": v.choices, "replay": v.replay})).collect::<Vec<_>>(),
             "digests": self.digests.iter().collect::<Vec<_>>(),
             "digests_interleaved": self.digests_interleaved.iter().collect::<Vec<_>>(),
         })
@@ -112,6 +121,15 @@ impl Stats {
             max_decisions: g("max_decisions"),
             capped: v["capped"].as_bool().unwrap_or(false),
             unexplored_jobs: g("unexplored_jobs"),
+            violating_executions: g("violating_executions"),
+            violations: v["violations"].as_array().map(|a| a.iter().map(|vi| Violation {
+                property: String::new(), scenario: String::new(),
+                message: vi["message"].as_str().unwrap_or("").to_string(),
+                replay: vi["replay"].as_str().unwrap_or("").to_string(),
+                cost: vi["cost"].as_u64().unwrap_or(0) as u32,
+                choices: vi["choices"].as_array().map(|a| a.iter().filter_map(|x| x.as_u64()).map(|x| x as u32).collect()).unwrap_or_default(),
+                log: vec![],
+            }).collect()).unwrap_or_default(),
             digests: set("digests"),
             digests_interleaved: set("digests_interleaved"),
         }
@@ -126,6 +144,7 @@ pub struct Violation {
     pub replay: String,
     pub cost: u32,
     pub choices: Vec<u32>,
+    pub log: Vec<Ev>,
 }
 
 #[derive(Clone, Debug)]
@@ -133,7 +152,8 @@ pub struct Summary {
     pub scenario: String,
     pub bound: Option<u32>,
     pub stats: Stats,
-    pub violation: Option<Violation>,
+    pub violations: Vec<Violation>,
+    pub violating_executions: u64,
     pub wall_s: f64,
     pub samples: Vec<Value>,
     pub nthreads: usize,
@@ -184,16 +204,35 @@ pub fn write_replay(property: &str, scenario: &str, dir: &str, choices: &[u32], 
     path
 }
 
-fn on_violation_worker(e: &mut Exec) {
+/// Class of a violation message (its prefix): used to attribute violations to properties.
+pub fn class_of(msg: &str) -> String {
+    let m = msg.trim_start();
+    for (p, c) in [("data race", "race"), ("livelock", "livelock"), ("deadlock", "deadlock"), ("heap ", "alloc"), ("execution hung", "hung"), ("process died", "crash"), ("engine", "engine")] {
+        if m.starts_with(p) {
+            return c.to_string();
+        }
+    }
+    match m.find(':') {
+        Some(i) if i <= 12 => m[..i].to_string(),
+        _ => "other".to_string(),
+    }
+}
+
+fn record_violation(out: &Outcome, st: &mut Stats) {
     let c = ctx();
-    let choices: Vec<u32> = e.decisions.iter().map(|d| d.chosen as u32).collect();
-    let msg = e.violation.clone().unwrap_or_default();
-    let cost = choices_cost(e);
-    let path = write_replay(&c.property, &c.scenario, &c.replay_dir, &choices, &msg, &e.log, cost);
-    let line = json!({"violation": {"message": msg, "replay": path, "cost": cost, "choices": choices}}).to_string() + "\n";
-    unsafe {
-        libc::write(c.pipe_fd, line.as_ptr() as *const _, line.len());
-        libc::_exit(1);
+    let msg = out.violation.clone().unwrap_or_default();
+    let choices: Vec<u32> = out.decisions.iter().map(|d| d.1 as u32).collect();
+    let cost: u32 = out.decisions.iter().zip(out.costs.iter()).map(|(d, cs)| cs[d.1 as usize] as u32).sum();
+    let class = class_of(&msg);
+    st.violating_executions += 1;
+    // keep the cheapest per class
+    let better = match st.violations.iter().find(|v| class_of(&v.message) == class) {
+        None => true,
+        Some(v) => (cost, &choices) < (v.cost, &v.choices),
+    };
+    if better {
+        st.violations.retain(|v| class_of(&v.message) != class);
+        st.violations.push(Violation { property: c.property.clone(), scenario: c.scenario.clone(), message: msg, replay: String::new(), cost, choices, log: out.log.clone() });
     }
 }
 
@@ -229,27 +268,66 @@ fn unmap_shared(s: &'static Shared) {
     }
 }
 
+fn finalize_violations(st: &mut Stats) {
+    let c = ctx();
+    for v in st.violations.iter_mut() {
+        v.replay = write_replay(&c.property, &c.scenario, &c.replay_dir, &v.choices, &v.message, &v.log, v.cost);
+        v.log.clear();
+    }
+}
+
 type Job = (Vec<u32>, u32);
 
-fn children(o: &Outcome, prefix_len: usize, cost: u32, bound: Option<u32>, out: &mut Vec<Job>) {
-    let base: Vec<u32> = o.decisions.iter().map(|d| d.1 as u32).collect();
+/// Children of an execution, kept compactly: (shared base choices, position, alternative, cost).
+struct Lazy {
+    base: std::rc::Rc<Vec<u32>>,
+    i: u32,
+    alt: u32,
+    cost: u32,
+}
+
+impl Lazy {
+    fn materialize(&self) -> Job {
+        let mut c = self.base[..self.i as usize].to_vec();
+        c.push(self.alt);
+        (c, self.cost)
+    }
+}
+
+fn children_lazy(o: &Outcome, prefix_len: usize, cost: u32, bound: Option<u32>, out: &mut Vec<Lazy>) {
+    let base = std::rc::Rc::new(o.decisions.iter().map(|d| d.1 as u32).collect::<Vec<u32>>());
+    // A violating execution was cut short; branch only near its beginning (a livelocked one has
+    // tens of thousands of decisions).
+    let end = if o.violation.is_some() { o.decisions.len().min(prefix_len + 256) } else { o.decisions.len() };
     // push in reverse so that a stack pops the earliest deviation first
-    for i in (prefix_len..o.decisions.len()).rev() {
+    for i in (prefix_len..end).rev() {
         let n = o.decisions[i].0 as usize;
         for alt in (1..n).rev() {
             let k = o.costs[i][alt] as u32;
             if bound.map_or(true, |b| cost + k <= b) {
-                let mut c = base[..i].to_vec();
-                c.push(alt as u32);
-                out.push((c, cost + k));
+                out.push(Lazy { base: base.clone(), i: i as u32, alt: alt as u32, cost: cost + k });
             }
         }
     }
 }
 
+fn children(o: &Outcome, prefix_len: usize, cost: u32, bound: Option<u32>, out: &mut Vec<Job>) {
+    let mut l = Vec::new();
+    children_lazy(o, prefix_len, cost, bound, &mut l);
+    out.extend(l.iter().map(|x| x.materialize()));
+}
+
 fn explore_job(r: &dyn Runnable, job: Job, bound: Option<u32>, stats: &mut Stats, deadline: Instant, shared: &Shared) {
-    let mut stack = vec![job];
-    while let Some((p, c)) = stack.pop() {
+    let mut stack: Vec<Lazy> = Vec::new();
+    let mut next: Option<Job> = Some(job);
+    loop {
+        let (p, c) = match next.take() {
+            Some(j) => j,
+            None => match stack.pop() {
+                Some(l) => l.materialize(),
+                None => return,
+            },
+        };
         if Instant::now() > deadline || shared.stop.load(Ordering::Relaxed) != 0 {
             stats.capped = true;
             stats.unexplored_jobs += 1 + stack.len() as u64;
@@ -257,7 +335,7 @@ fn explore_job(r: &dyn Runnable, job: Job, bound: Option<u32>, stats: &mut Stats
         }
         let out = r.run(&p, false);
         stats.add(&out, p.len());
-        children(&out, p.len(), c, bound, &mut stack);
+        children_lazy(&out, p.len(), c, bound, &mut stack);
     }
 }
 
@@ -379,7 +457,6 @@ fn prepare_child(cfg: &Config, scenario: &str, pipe_fd: i32, shared: &'static Sh
         replay_dir: replay_dir(),
     });
     CTX.store(Box::into_raw(c) as usize, Ordering::SeqCst);
-    sched::ON_VIOLATION.store(on_violation_worker as usize, Ordering::SeqCst);
     sched::PROGRESS.store(&shared.progress[slot] as *const Progress as usize, Ordering::SeqCst);
     // A panic in engine code on the controller is a machinery failure.
     std::panic::set_hook(Box::new(|info| {
@@ -395,28 +472,21 @@ pub fn replay_dir() -> String {
 
 fn interpret(results: Vec<ChildResult>, cfg: &Config, scenario: &str, stats: &mut Stats, violations: &mut Vec<Violation>, extra: &mut Vec<Value>) -> Result<(), String> {
     for r in results {
-        let mut got_violation = false;
         for line in r.output.lines() {
             let v: Value = match serde_json::from_str(line) {
                 Ok(v) => v,
                 Err(_) => continue,
             };
             if v.get("stats").is_some() {
-                stats.merge(&Stats::from_json(&v["stats"]));
+                let mut st = Stats::from_json(&v["stats"]);
+                for x in st.violations.iter_mut() {
+                    x.property = cfg.property.clone();
+                    x.scenario = scenario.to_string();
+                }
+                stats.merge(&st);
             }
             if let Some(x) = v.get("extra") {
                 extra.push(x.clone());
-            }
-            if let Some(vi) = v.get("violation") {
-                got_violation = true;
-                violations.push(Violation {
-                    property: cfg.property.clone(),
-                    scenario: scenario.to_string(),
-                    message: vi["message"].as_str().unwrap_or("").to_string(),
-                    replay: vi["replay"].as_str().unwrap_or("").to_string(),
-                    cost: vi["cost"].as_u64().unwrap_or(0) as u32,
-                    choices: vi["choices"].as_array().map(|a| a.iter().filter_map(|x| x.as_u64()).map(|x| x as u32).collect()).unwrap_or_default(),
-                });
             }
         }
         let exited = libc::WIFEXITED(r.status);
@@ -424,13 +494,12 @@ fn interpret(results: Vec<ChildResult>, cfg: &Config, scenario: &str, stats: &mu
         if r.hung {
             let msg = "execution hung: a thread is blocked in a call the scheduler cannot see (blocking syscall or unhooked wait) while holding the run token".to_string();
             let path = write_replay(&cfg.property, scenario, &replay_dir(), &r.last_choices, &msg, &[], 0);
-            violations.push(Violation { property: cfg.property.clone(), scenario: scenario.to_string(), message: msg, replay: path, cost: 0, choices: r.last_choices.clone() });
+            violations.push(Violation { property: cfg.property.clone(), scenario: scenario.to_string(), message: msg, replay: path, cost: 0, choices: r.last_choices.clone(), log: vec![] });
         } else if !exited {
             let sig = libc::WTERMSIG(r.status);
             let msg = format!("process died by signal {} during an execution (abort/crash inside library code or a signal handler frame, e.g. a panic crossing the handler)", sig);
             let path = write_replay(&cfg.property, scenario, &replay_dir(), &r.last_choices, &msg, &[], 0);
-            violations.push(Violation { property: cfg.property.clone(), scenario: scenario.to_string(), message: msg, replay: path, cost: 0, choices: r.last_choices.clone() });
-        } else if code == 1 && got_violation {
+            violations.push(Violation { property: cfg.property.clone(), scenario: scenario.to_string(), message: msg, replay: path, cost: 0, choices: r.last_choices.clone(), log: vec![] });
         } else if code != 0 {
             return Err(format!("worker exited with status {} (machinery failure); output: {}", code, r.output.chars().take(400).collect::<String>()));
         }
@@ -477,6 +546,7 @@ pub fn explore(r: &dyn Runnable, cfg: &Config) -> Result<Summary, String> {
                 queue.push_back(j);
             }
         }
+        finalize_violations(&mut st);
         let jobs: Vec<Value> = queue.iter().map(|(p, c)| json!([p, c])).collect();
         let line = json!({"stats": st.to_json(), "extra": {"jobs": jobs, "samples": samples}}).to_string() + "\n";
         write_fd(pfd, &line);
@@ -498,37 +568,65 @@ pub fn explore(r: &dyn Runnable, cfg: &Config) -> Result<Summary, String> {
     }
     extra.clear();
 
-    // Phase 2: workers.
-    if violations.is_empty() && !jobs.is_empty() {
+    // Phase 2: workers (re-spawned if some die in a crashing / hanging execution).
+    if !jobs.is_empty() {
         shared.next_job.store(0, Ordering::SeqCst);
-        let mut kids = Vec::new();
-        for w in 0..workers.min(jobs.len()) {
-            let jobs_ref = &jobs;
-            let (pid, fd) = fork_child(|pfd| {
-                prepare_child(cfg, &name, pfd, shared, w + 1);
-                let mut st = Stats::default();
-                loop {
-                    let i = shared.next_job.fetch_add(1, Ordering::SeqCst) as usize;
-                    if i >= jobs_ref.len() {
-                        break;
+        let mut rounds = 0;
+        while (shared.next_job.load(Ordering::SeqCst) as usize) < jobs.len() && rounds < 40 {
+            rounds += 1;
+            let mut kids = Vec::new();
+            let remaining = jobs.len() - shared.next_job.load(Ordering::SeqCst) as usize;
+            for w in 0..workers.min(remaining) {
+                let jobs_ref = &jobs;
+                let (pid, fd) = fork_child(|pfd| {
+                    prepare_child(cfg, &name, pfd, shared, w + 1);
+                    loop {
+                        let i = shared.next_job.fetch_add(1, Ordering::SeqCst) as usize;
+                        if i >= jobs_ref.len() {
+                            break;
+                        }
+                        let mut st = Stats::default();
+                        explore_job(r, jobs_ref[i].clone(), bound, &mut st, deadline, shared);
+                        finalize_violations(&mut st);
+                        let line = json!({"stats": st.to_json()}).to_string() + "\n";
+                        write_fd(pfd, &line);
                     }
-                    explore_job(r, jobs_ref[i].clone(), bound, &mut st, deadline, shared);
-                }
-                let line = json!({"stats": st.to_json()}).to_string() + "\n";
-                write_fd(pfd, &line);
-            });
-            kids.push((pid, fd, w + 1));
+                });
+                kids.push((pid, fd, w + 1));
+            }
+            let res = supervise(&kids, shared, cfg.hang_secs);
+            let before = violations.len();
+            interpret(res, cfg, &name, &mut stats, &mut violations, &mut extra)?;
+            if violations.len() > before {
+                // a worker died mid-job: that job's subtree is not completely explored
+                stats.capped = true;
+                stats.unexplored_jobs += (violations.len() - before) as u64;
+            }
         }
-        let res = supervise(&kids, shared, cfg.hang_secs);
-        interpret(res, cfg, &name, &mut stats, &mut violations, &mut extra)?;
     }
     unmap_shared(shared);
+    violations.extend(stats.violations.drain(..));
     violations.sort_by(|a, b| (a.cost, &a.choices).cmp(&(b.cost, &b.choices)));
+    // one (the cheapest) per class
+    let mut seen = HashSet::new();
+    let mut seen_s: Vec<String> = Vec::new();
+    violations.retain(|v| {
+        let c = class_of(&v.message);
+        if seen_s.contains(&c) {
+            false
+        } else {
+            seen_s.push(c);
+            true
+        }
+    });
+    let _ = &mut seen;
+    seen.insert(0u8);
     Ok(Summary {
         scenario: name,
         bound,
+        violating_executions: stats.violating_executions,
         stats,
-        violation: violations.into_iter().next(),
+        violations,
         wall_s: start.elapsed().as_secs_f64(),
         samples,
         nthreads,
@@ -549,11 +647,6 @@ pub fn sample_json(p: &[u32], out: &Outcome) -> Value {
 // ---------------------------------------------------------------------------------------------
 // Replay: run one choice vector in a child, twice, and compare.
 
-struct ReplayCtx {
-    pipe_fd: i32,
-}
-static RCTX: AtomicUsize = AtomicUsize::new(0);
-
 fn log_digest(log: &[Ev]) -> u64 {
     let mut h: u64 = 0xcbf29ce484222325;
     for e in log {
@@ -567,24 +660,42 @@ fn log_digest(log: &[Ev]) -> u64 {
     h
 }
 
-fn on_violation_replay(e: &mut Exec) {
-    let c = unsafe { &*(RCTX.load(Ordering::SeqCst) as *const ReplayCtx) };
-    let line = json!({"violation": e.violation.clone().unwrap_or_default(), "log_digest": log_digest(&e.log), "events": e.log.len()}).to_string() + "\n";
-    unsafe {
-        libc::write(c.pipe_fd, line.as_ptr() as *const _, line.len());
-        libc::_exit(1);
+/// Strip run-specific addresses from a message so that two runs can be compared.
+pub fn normalize(msg: &str) -> String {
+    let mut out = String::new();
+    let b = msg.as_bytes();
+    let mut i = 0;
+    while i < b.len() {
+        if b[i] == b'0' && i + 1 < b.len() && b[i + 1] == b'x' {
+            out.push_str("0x_");
+            i += 2;
+            while i < b.len() && (b[i] as char).is_ascii_hexdigit() {
+                i += 1;
+            }
+        } else if (b[i] as char).is_ascii_digit() {
+            let st = i;
+            while i < b.len() && (b[i] as char).is_ascii_digit() {
+                i += 1;
+            }
+            if i - st >= 9 { out.push('#'); } else { out.push_str(&msg[st..i]); }
+        } else {
+            out.push(b[i] as char);
+            i += 1;
+        }
     }
+    out
 }
 
 /// Returns (violation message or None, log digest) of one run in a child.
 pub fn replay_once(r: &dyn Runnable, choices: &[u32], hang_secs: u64) -> Result<(Option<String>, u64), String> {
     let shared = map_shared();
     let (pid, fd) = fork_child(|pfd| {
-        RCTX.store(Box::into_raw(Box::new(ReplayCtx { pipe_fd: pfd })) as usize, Ordering::SeqCst);
-        sched::ON_VIOLATION.store(on_violation_replay as usize, Ordering::SeqCst);
         sched::PROGRESS.store(&shared.progress[0] as *const Progress as usize, Ordering::SeqCst);
         let out = r.run(choices, true);
-        let line = json!({"ok": true, "log_digest": log_digest(&out.log), "events": out.log.len()}).to_string() + "\n";
+        let line = match &out.violation {
+            None => json!({"ok": true, "log_digest": log_digest(&out.log), "events": out.log.len()}),
+            Some(m) => json!({"violation": normalize(m), "log_digest": log_digest(&out.log), "events": out.log.len()}),
+        }.to_string() + "\n";
         write_fd(pfd, &line);
     });
     let res = supervise(&[(pid, fd, 0)], shared, hang_secs);
